@@ -183,6 +183,8 @@ def match_finding(findings, prop, v):
                 continue
             if any(c in v["sig"] for c in pat.get("excludes", [])):
                 continue
+            if "contains_any" in pat and not any(c in v["sig"] for c in pat["contains_any"]):
+                continue
             return f
     return None
 
